@@ -73,6 +73,9 @@ def check(run):
         run.floor('API.write', 'buffer write accessors (config %s)' % cfg, nw, {'base': 3, 'nd': 10, 'full': 10}.get(cfg, 3))
         if cfg == 'base':
             tl.check_write_trust_iter(run, F)
+    # the buffers every kernel writes into / every collector returns are the backends' own, of the requested size
+    from common import dep_alloc as _dep_alloc
+    _dep_alloc(run, polars=True)
     return run.finish(
         'other',
         'Backends only supply accessors: every `impl Vec1View` overrides a subset of the '
